@@ -277,10 +277,11 @@ where
                 .and_then(|map| map.swap_remove(&delivery_info.delivery_tag))
         } else {
             let mut lock = self.unsettled.write();
-            // If the key is present in the map, the old value will be returned, which
-            // we don't really need
-            lock.get_or_insert(OrderedMap::new())
-                .insert(delivery_info.delivery_tag.clone(), Some(state.clone()))
+            // Only a delivery that is still unsettled gets the new state; a delivery that
+            // is no longer in the map has been settled and must not be added again
+            lock.as_mut()
+                .and_then(|map| map.get_mut(&delivery_info.delivery_tag))
+                .map(|entry| entry.replace(state.clone()))
         };
 
         // Only dispose if message is found in unsettled map
